@@ -239,7 +239,7 @@ func runCheck(p *PropCheck, tier string) int {
 	var dwg sync.WaitGroup
 	var dmu sync.Mutex
 	for _, j := range jobs {
-		if p.NoDiff || j.Threads {
+		if p.NoDiff || j.Threads || j.NoDiff {
 			continue // schedule-dependent harnesses are validated through their counterexample replays only
 		}
 		for i, inp := range j.res.OkModels {
